@@ -2,7 +2,7 @@
    BCase: interleaved Begin/End/Allow/Accept/Reject/advance events over named breakers and what
    lib/breaker did; PCase: one value of a finite error / status set and what the real
    benign-outcome predicate of an integration answered. *)
-From God Require Import Base.Prelude C09.RW C09.Spec C01.GenEnv C01.Spec.
+From God Require Import Base.Prelude C09.RW C09.Spec C09.Integ C01.GenEnv C01.Spec.
 From God Require Export C01.Model.
 From Coq Require Import Floats String.
 From GodGen Require C01_Gen.
@@ -31,7 +31,10 @@ Inductive xev :=
 
 Inductive case :=
 | BCase (evs : list xev) (rows : list (Z * Z * Z))     (* per event: code, accepts, total *)
-| PCase (which : nat) (arg : Z) (ok : bool).            (* 0 grpc, 1 sqlx, 2 redis, 3 http *)
+| PCase (which : nat) (arg : Z) (ok : bool)             (* 0 grpc, 1 sqlx, 2 redis, 3 http status (explicit),
+                                                           5 server / 6 client breaker interceptor: code + 100*panic *)
+| HCase (shp : nat) (status code : Z) (ok : bool).      (* HTTP response shape through BreakerHandler: Code held by
+                                                           WithCodeResponseWriter, never cut off in 200 requests? *)
 
 Definition to_ev (x : xev) : nat * ev :=
   match x with
@@ -92,18 +95,31 @@ Definition grpc_acceptable (c : Z) : bool :=
 
 Definition http_threshold : Z := 500.        (* http.StatusInternalServerError, breakerhandler.go:34 *)
 
+(* the interceptors mark through codes.Acceptable; a panic is a failure mark (googlebreaker.go:71-76) *)
+Definition rpc_mark (arg : Z) : bool := (arg / 100 =? 0) && grpc_acceptable (arg mod 100).
+
 Definition pred (which : nat) (arg : Z) : bool :=
   match which with
   | 0%nat => grpc_acceptable arg
   | 1%nat => C01_Gen.sqlx_acceptable (if 10 <=? arg then 1 else 0) (arg mod 10)
   | 2%nat => C01_Gen.redis_acceptable arg
-  | _ => arg <? http_threshold
+  | 3%nat => arg <? http_threshold
+  | _ => rpc_mark arg
   end.
+
+(* response shapes of the api/handler driver *)
+Definition hshape (k : nat) (st : Z) : shape :=
+  match k with
+  | 0%nat => SHeader st | 1%nat | 4%nat => SWrite | 3%nat => SStream st | 5%nat => SPanic | _ => SNothing
+  end.
+Definition hguard (k : nat) : bool := Nat.eqb k 5.
 
 Definition model_ok (c : case) : bool :=
   match c with
   | BCase evs rows => b_run [] t0 evs rows
   | PCase which arg ok => Bool.eqb (pred which arg) ok
+  | HCase k st code ok =>
+      (code =? http_code (hguard k) (hshape k st)) && Bool.eqb ok (http_mark (hguard k) (hshape k st))
   end.
 
 (* ---------- the property on the observations ---------- *)
@@ -163,13 +179,21 @@ Definition benign (which : nat) (arg : Z) : bool :=
   | 0%nat => negb (existsb (Z.eqb arg) [4; 13; 14; 15; 12])   (* DeadlineExceeded Internal Unavailable DataLoss Unimplemented *)
   | 1%nat => existsb (Z.eqb (arg mod 10)) [0; 1; 2; 3]        (* nil ErrNoRows ErrTxDone context.Canceled *)
   | 2%nat => existsb (Z.eqb arg) [0; 3; 4]                    (* nil context.Canceled redis.Nil *)
-  | _ => arg <? 500                                            (* HTTP status below 500 *)
+  | 3%nat => arg <? 500                                        (* HTTP status below 500 *)
+  | _ => (arg / 100 =? 0) && negb (existsb (Z.eqb (arg mod 100)) [4; 13; 14; 15; 12])   (* returned, benign code *)
   end.
+
+(* 3, 5, 6 and HCase are sustained black-box runs (200 calls through one breaker): a benign outcome is
+   never cut off; one that keeps failing (status >= 500, one of the five codes, a panic) is cut off *)
+Definition sustained (which : nat) : bool := (3 <=? which)%nat.
 
 Definition spec_ok (c : case) : bool :=
   match c with
   | BCase evs rows =>
       if forallb (fun x => match x with XAdv dt => 0 <=? dt | _ => true end) evs
       then b_spec [] t0 evs rows else true
-  | PCase which arg ok => if benign which arg then ok else true
+  | PCase which arg ok => if benign which arg then ok else if sustained which then negb ok else true
+  | HCase k st code ok =>
+      (* the status the client gets: written explicitly, else the implicit 200; a recovered panic is a 500 *)
+      if http_status (hguard k) (hshape k st) <? 500 then ok else negb ok
   end.
